@@ -9,8 +9,9 @@ META = {
     "design_ref": "5/C03",
     "coq_targets": ["Props/Properties_C03.vo", "Search/SearchCheck.vo"],
     "coq_files": ["Gen/SearchConsts.v", "Gen/S256Consts.v", "S256/S256.v", "S256/DecimalProofs.v", "Search/Search.v", "Search/SearchProofs.v",
-                  "Search/ChainProofs.v", "Search/SearchCheck.v", "Props/Properties_C03.v"],
-    "theorems": ["C03_page_refuted", "C03_idlist_page_partial", "C03_idlist_chain_partial", "C03_int_iff_decimal"],
+                  "Search/ChainProofs.v", "Search/SatProofs.v", "Search/MergeLoop.v", "Search/MergeLoopProofs.v", "Search/SearchCheck.v", "Props/Properties_C03.v"],
+    "theorems": ["C03_page_refuted", "C03_idlist_page_partial", "C03_idlist_chain_partial", "C03_handler_is_sat_partial", "C03_listing_chain_sat_partial",
+                 "C03_int_iff_decimal"],
     "technique": "executable Gallina model of PreprocessSearchQuery + MetaDataKVHandler + searchTx/searchUnfiltered over a byte-ordered key list; "
                  "Coq proofs (induction over the scanned key list) for the ID-ordered listing scan, the integer-index membership (via C05) and a "
                  "vm_compute refutation of the full statement; differential correspondence with a real meta.DB (bbolt temp files) following cursors, "
